@@ -7,17 +7,3 @@ Set Printing Width 100000000.
 Set Printing Depth 100000000.
 Fixpoint bs (l : list nat) : string := match l with [] => EmptyString | n :: r => String (Ascii.ascii_of_nat n) (bs r) end.
 Definition T_ (b : bool) : string := if b then "T" else "F".
-Definition t210 : pt := (mkPacket (mkPtok 37 "MetaData" 2 0 1) (Some (mkPtok 3 "}" 31 0 102)) [(DMeta (mkMetaDef (mkSpan (mkPtok 37 "MetaData" 2 0 1) (mkPtok 3 "}" 4 0 7)) (mkPtok 37 "MetaData" 2 0 1) (mkPtok 42 "Common" 2 9 2) (mkPtok 2 "{" 2 16 3) [(MIDecl (mkMetaDecl (mkSpan (mkPtok 15 "string" 3 4 4) (mkPtok 40 "," 3 19 6)) (TyDynamic (mkSpan (mkPtok 15 "string" 3 4 4) (mkPtok 15 "string" 3 4 4)) (mkDynamicString (mkSpan (mkPtok 15 "string" 3 4 4) (mkPtok 15 "string" 3 4 4)) (mkPtok 15 "string" 3 4 4))) (mkPtok 42 "MsgType" 3 11 5) None (mkPtok 40 "," 3 19 6)))] (mkPtok 3 "}" 4 0 7))); (DMeta (mkMetaDef (mkSpan (mkPtok 37 "MetaData" 5 0 8) (mkPtok 3 "}" 11 0 31)) (mkPtok 37 "MetaData" 5 0 8) (mkPtok 42 "M1" 5 9 9) (mkPtok 2 "{" 5 12 10) [(MIDecl (mkMetaDecl (mkSpan (mkPtok 25 "int16" 6 4 11) (mkPtok 40 "," 6 16 13)) (TyBasic (mkSpan (mkPtok 25 "int16" 6 4 11) (mkPtok 25 "int16" 6 4 11)) (mkBasicType (mkSpan (mkPtok 25 "int16" 6 4 11) (mkPtok 25 "int16" 6 4 11)) (mkPtok 25 "int16" 6 4 11))) (mkPtok 42 "Price" 6 10 12) None (mkPtok 40 "," 6 16 13))); (MIDecl (mkMetaDecl (mkSpan (mkPtok 22 "uint32" 7 4 14) (mkPtok 40 "," 7 28 17)) (TyBasic (mkSpan (mkPtok 22 "uint32" 7 4 14) (mkPtok 22 "uint32" 7 4 14)) (mkBasicType (mkSpan (mkPtok 22 "uint32" 7 4 14) (mkPtok 22 "uint32" 7 4 14)) (mkPtok 22 "uint32" 7 4 14))) (mkPtok 42 "Text" 7 11 15) (Some (mkPtok 43 "`two words`" 7 16 16)) (mkPtok 40 "," 7 28 17))); (MIDecl (mkMetaDecl (mkSpan (mkPtok 25 "i16" 8 4 18) (mkPtok 40 "," 8 24 21)) (TyBasic (mkSpan (mkPtok 25 "i16" 8 4 18) (mkPtok 25 "i16" 8 4 18)) (mkBasicType (mkSpan (mkPtok 25 "i16" 8 4 18) (mkPtok 25 "i16" 8 4 18)) (mkPtok 25 "i16" 8 4 18))) (mkPtok 42 "Qty" 8 8 19) (Some (mkPtok 43 "`two words`" 8 12 20)) (mkPtok 40 "," 8 24 21))); (MIDecl (mkMetaDecl (mkSpan (mkPtok 14 "zchar[" 9 4 22) (mkPtok 40 "," 9 20 26)) (TyFixed (mkSpan (mkPtok 14 "zchar[" 9 4 22) (mkPtok 13 "]" 9 13 24)) (mkFixedString (mkSpan (mkPtok 14 "zchar[" 9 4 22) (mkPtok 13 "]" 9 13 24)) (mkPtok 14 "zchar[" 9 4 22) (mkPtok 30 "3" 9 11 23) (mkPtok 13 "]" 9 13 24))) (mkPtok 42 "Side" 9 15 25) None (mkPtok 40 "," 9 20 26))); (MIRef (mkRefMetaDecl (mkSpan (mkPtok 42 "Text" 10 4 28) (mkPtok 40 "," 10 17 30)) (mkPtok 42 "Text" 10 4 28) (mkPtok 42 "ClOrdID" 10 9 29) None (mkPtok 40 "," 10 17 30)))] (mkPtok 3 "}" 11 0 31))); (DPacket (mkPacketDef (mkSpan (mkPtok 34 "root" 12 0 32) (mkPtok 3 "}" 20 0 69)) (Some (mkPtok 34 "root" 12 0 32)) (mkPtok 35 "packet" 12 5 33) (mkPtok 42 "NewOrder" 12 12 34) (mkPtok 2 "{" 12 21 35) [(mkFieldWithAttr (mkSpan (mkPtok 32 "@rightPad" 13 4 36) (mkPtok 40 "," 13 32 42)) [(FAPadding (mkSpan (mkPtok 32 "@rightPad" 13 4 36) (mkPtok 6 ")" 13 20 39)) (mkPaddingAttr (mkSpan (mkPtok 32 "@rightPad" 13 4 36) (mkPtok 6 ")" 13 20 39)) (mkPtok 32 "@rightPad" 13 4 36) (mkPtok 8 "(" 13 14 37) (Some (mkPtok 33 "'0'" 13 16 38)) (mkPtok 6 ")" 13 20 39)))] (ObjectField (mkSpan (mkPtok 42 "Side" 13 22 40) (mkPtok 40 "," 13 32 42)) None (mkPtok 42 "Side" 13 22 40) (Some (mkPtok 42 "kind" 13 27 41)) None (mkPtok 40 "," 13 32 42))); (mkFieldWithAttr (mkSpan (mkPtok 26 "i32" 14 4 43) (mkPtok 40 "," 14 39 49)) [] (LengthField (mkSpan (mkPtok 26 "i32" 14 4 43) (mkPtok 40 "," 14 39 49)) (mkLengthFieldDecl (mkSpan (mkPtok 26 "i32" 14 4 43) (mkPtok 40 "," 14 39 49)) (Some (TyBasic (mkSpan (mkPtok 26 "i32" 14 4 43) (mkPtok 26 "i32" 14 4 43)) (mkBasicType (mkSpan (mkPtok 26 "i32" 14 4 43) (mkPtok 26 "i32" 14 4 43)) (mkPtok 26 "i32" 14 4 43)))) (mkPtok 42 "len" 14 8 44) (mkLengthOf (mkSpan (mkPtok 7 "@lengthOf(" 14 12 45) (mkPtok 6 ")" 14 31 47)) (mkPtok 7 "@lengthOf(" 14 12 45) (mkPtok 42 "MsgType" 14 23 46) (mkPtok 6 ")" 14 31 47)) (Some (mkPtok 43 "`doc`" 14 33 48)) (mkPtok 40 "," 14 39 49)))); (mkFieldWithAttr (mkSpan (mkPtok 9 "@tag(" 15 4 50) (mkPtok 40 "," 16 21 56)) [(FATag (mkSpan (mkPtok 9 "@tag(" 15 4 50) (mkPtok 6 ")" 15 12 52)) (mkTagAttr (mkSpan (mkPtok 9 "@tag(" 15 4 50) (mkPtok 6 ")" 15 12 52)) (mkPtok 9 "@tag(" 15 4 50) (mkPtok 30 "1" 15 10 51) (mkPtok 6 ")" 15 12 52)))] (ObjectField (mkSpan (mkPtok 36 "repeat" 16 4 53) (mkPtok 40 "," 16 21 56)) (Some (mkPtok 36 "repeat" 16 4 53)) (mkPtok 42 "Side" 16 11 54) (Some (mkPtok 42 "note" 16 16 55)) None (mkPtok 40 "," 16 21 56))); (mkFieldWithAttr (mkSpan (mkPtok 42 "MsgType" 17 4 57) (mkPtok 40 "," 17 12 58)) [] (ObjectField (mkSpan (mkPtok 42 "MsgType" 17 4 57) (mkPtok 40 "," 17 12 58)) None (mkPtok 42 "MsgType" 17 4 57) None None (mkPtok 40 "," 17 12 58))); (mkFieldWithAttr (mkSpan (mkPtok 42 "Price" 18 4 59) (mkPtok 40 "," 18 15 61)) [] (ObjectField (mkSpan (mkPtok 42 "Price" 18 4 59) (mkPtok 40 "," 18 15 61)) None (mkPtok 42 "Price" 18 4 59) (Some (mkPtok 42 "side" 18 10 60)) None (mkPtok 40 "," 18 15 61))); (mkFieldWithAttr (mkSpan (mkPtok 12 "char[" 19 4 63) (mkPtok 40 "," 19 24 68)) [] (MetaField (mkSpan (mkPtok 12 "char[" 19 4 63) (mkPtok 40 "," 19 24 68)) None (mkMetaDecl (mkSpan (mkPtok 12 "char[" 19 4 63) (mkPtok 40 "," 19 24 68)) (TyFixed (mkSpan (mkPtok 12 "char[" 19 4 63) (mkPtok 13 "]" 19 12 65)) (mkFixedString (mkSpan (mkPtok 12 "char[" 19 4 63) (mkPtok 13 "]" 19 12 65)) (mkPtok 12 "char[" 19 4 63) (mkPtok 30 "3" 19 10 64) (mkPtok 13 "]" 19 12 65))) (mkPtok 42 "ref_id" 19 14 66) (Some (mkPtok 43 "``" 19 21 67)) (mkPtok 40 "," 19 24 68))))] (mkPtok 3 "}" 20 0 69))); (DPacket (mkPacketDef (mkSpan (mkPtok 35 "packet" 21 0 70) (mkPtok 3 "}" 26 0 87)) None (mkPtok 35 "packet" 21 0 70) (mkPtok 42 "Reject" 21 7 71) (mkPtok 2 "{" 21 14 72) [(mkFieldWithAttr (mkSpan (mkPtok 15 "string" 22 4 73) (mkPtok 40 "," 22 16 75)) [] (MetaField (mkSpan (mkPtok 15 "string" 22 4 73) (mkPtok 40 "," 22 16 75)) None (mkMetaDecl (mkSpan (mkPtok 15 "string" 22 4 73) (mkPtok 40 "," 22 16 75)) (TyDynamic (mkSpan (mkPtok 15 "string" 22 4 73) (mkPtok 15 "string" 22 4 73)) (mkDynamicString (mkSpan (mkPtok 15 "string" 22 4 73) (mkPtok 15 "string" 22 4 73)) (mkPtok 15 "string" 22 4 73))) (mkPtok 42 "kind" 22 11 74) None (mkPtok 40 "," 22 16 75)))); (mkFieldWithAttr (mkSpan (mkPtok 38 "match" 23 4 76) (mkPtok 40 "," 25 6 86)) [] (MatchField (mkSpan (mkPtok 38 "match" 23 4 76) (mkPtok 40 "," 25 6 86)) (mkMatchFieldDecl (mkSpan (mkPtok 38 "match" 23 4 76) (mkPtok 3 "}" 25 4 85)) (mkPtok 38 "match" 23 4 76) (mkPtok 42 "kind" 23 10 77) (mkPtok 17 "as" 23 15 78) (mkPtok 42 "Payload" 23 18 79) (mkPtok 2 "{" 23 26 80) [(mkMatchPair (mkSpan (mkPtok 31 """A""" 24 8 81) (mkPtok 40 "," 24 23 84)) (MKString (mkPtok 31 """A""" 24 8 81)) (mkPtok 39 ":" 24 12 82) (mkPtok 42 "NewOrder" 24 14 83) (Some (mkPtok 40 "," 24 23 84)))] (mkPtok 3 "}" 25 4 85)) (mkPtok 40 "," 25 6 86)))] (mkPtok 3 "}" 26 0 87))); (DPacket (mkPacketDef (mkSpan (mkPtok 35 "packet" 27 0 88) (mkPtok 3 "}" 31 0 102)) None (mkPtok 35 "packet" 27 0 88) (mkPtok 42 "Trade" 27 7 89) (mkPtok 2 "{" 27 13 90) [(mkFieldWithAttr (mkSpan (mkPtok 36 "repeat" 28 4 91) (mkPtok 40 "," 30 6 101)) [] (InerObjectField (mkSpan (mkPtok 36 "repeat" 28 4 91) (mkPtok 40 "," 30 6 101)) (Some (mkPtok 36 "repeat" 28 4 91)) (InerObjectDecl (mkSpan (mkPtok 42 "Item" 28 11 92) (mkPtok 3 "}" 30 4 100)) (mkPtok 42 "Item" 28 11 92) (mkPtok 2 "{" 28 16 93) [(MetaField (mkSpan (mkPtok 14 "zchar[" 29 8 94) (mkPtok 40 "," 29 32 99)) None (mkMetaDecl (mkSpan (mkPtok 14 "zchar[" 29 8 94) (mkPtok 40 "," 29 32 99)) (TyFixed (mkSpan (mkPtok 14 "zchar[" 29 8 94) (mkPtok 13 "]" 29 18 96)) (mkFixedString (mkSpan (mkPtok 14 "zchar[" 29 8 94) (mkPtok 13 "]" 29 18 96)) (mkPtok 14 "zchar[" 29 8 94) (mkPtok 30 "32" 29 15 95) (mkPtok 13 "]" 29 18 96))) (mkPtok 42 "flags" 29 20 97) (Some (mkPtok 43 "`doc`" 29 26 98)) (mkPtok 40 "," 29 32 99)))] (mkPtok 3 "}" 30 4 100)) (mkPtok 40 "," 30 6 101)))] (mkPtok 3 "}" 31 0 102)))]).
-Eval vm_compute in ("<<<W210_alias_short>>>" ++ sh_escaped (render (rw_alias_short t210)) "").
-Eval vm_compute in ("<<<W210_alias_long>>>" ++ sh_escaped (render (rw_alias_long t210)) "").
-Eval vm_compute in ("<<<W210_alias_long_opts>>>" ++ sh_escaped (render (rw_alias_long_opts t210)) "").
-Eval vm_compute in ("<<<W210_zchar>>>" ++ sh_escaped (render (rw_zchar t210)) "").
-Eval vm_compute in ("<<<W210_drop_default_pad>>>" ++ sh_escaped (render (rw_drop_default_pad t210)) "").
-Eval vm_compute in ("<<<W210_add_default_pad>>>" ++ sh_escaped (render (rw_add_default_pad t210)) "").
-Eval vm_compute in ("<<<W210_prefix_attr>>>" ++ sh_escaped (render (rw_prefix_attr t210)) "").
-Eval vm_compute in ("<<<W210_default_options>>>" ++ sh_escaped (render (rw_default_options t210)) "").
-Eval vm_compute in ("<<<W210_expand_keys>>>" ++ sh_escaped (render (rw_expand_keys t210)) "").
-Eval vm_compute in ("<<<W210_inline_meta>>>" ++ sh_escaped (render (rw_inline_meta t210)) "").
-Eval vm_compute in ("<<<W210_seps_all>>>" ++ sh_escaped (render (rw_seps_all t210)) "").
-Eval vm_compute in ("<<<W210_seps_none>>>" ++ sh_escaped (render (rw_seps_none t210)) "").
-Eval vm_compute in ("<<<W210_drop_docs>>>" ++ sh_escaped (render (rw_drop_docs t210)) "").
